@@ -7,8 +7,35 @@
 #[verifier::external_body] pub struct Collector { _opaque: () }
 #[verifier::external_body] pub struct Store { _opaque: () }
 #[verifier::external_body] pub struct FilterPolicy { _opaque: () }
+// std::sync::atomic::{AtomicBool, Ordering}
 #[verifier::external_body] pub struct AtomicBool { _opaque: () }
+pub enum Ordering { Relaxed, Release, Acquire, AcqRel, SeqCst }
+impl AtomicBool {
+    #[verifier::external_body]
+    pub fn new(v: bool) -> (r: AtomicBool) { unimplemented!() }
+    // another thread may have stored in between: nothing is known about the value
+    #[verifier::external_body]
+    pub fn load(&self, order: Ordering) -> (r: bool) { unimplemented!() }
+    #[verifier::external_body]
+    pub fn store(&self, v: bool, order: Ordering) { unimplemented!() }
+}
 #[verifier::external_body] pub struct Metrics { _opaque: () }
+impl Default for Metrics {
+    #[verifier::external_body]
+    fn default() -> Metrics { unimplemented!() }
+}
+impl Metrics {
+    #[verifier::external_body]
+    pub fn new() -> (r: Metrics) { unimplemented!() }
+}
+#[verifier::external_body] pub struct TalUri { _opaque: () }
+#[verifier::external_body] pub struct Bytes { _opaque: () }
+#[verifier::external_body] pub struct CaCert { _opaque: () }
+#[verifier::external_body] pub struct Path { _opaque: () }
+#[verifier::external_body] pub struct StoredStatus { _opaque: () }
+#[verifier::external_body] pub struct StoreRepository { _opaque: () }
+#[verifier::external_body] pub struct StoredPoint { _opaque: () }
+#[verifier::external_body] pub struct CollectorRepository<'a> { _opaque: &'a () }
 #[verifier::external_body] pub struct Config { _opaque: () }
 #[verifier::external_body] pub struct ValidationReport { _opaque: () }
 
@@ -17,6 +44,10 @@
 impl Cleanup {
     #[verifier::external_body]
     pub fn new() -> (r: Cleanup) { unimplemented!() }
+}
+impl Default for Cleanup {
+    #[verifier::external_body]
+    fn default() -> Cleanup { unimplemented!() }
 }
 
 // store::Run. `engine_dirty()`: the engine this store run belongs to was
@@ -30,6 +61,28 @@ impl<'a> StoreRun<'a> {
     pub fn cleanup(&self, collector: &mut Cleanup) -> (r: Result<(), Failed>)
         requires !self.engine_dirty(),
     { unimplemented!() }
+    // The other operations of store::Run (none of them removes stored data).
+    #[verifier::external_body]
+    pub fn done(self, metrics: &mut Metrics) { unimplemented!() }
+    #[verifier::external_body]
+    pub fn load_ta(&self, uri: &TalUri) -> (r: Result<Option<Bytes>, Failed>) { unimplemented!() }
+    #[verifier::external_body]
+    pub fn update_ta(&self, uri: &TalUri, content: &[u8]) -> (r: Result<(), Failed>) { unimplemented!() }
+    #[verifier::external_body]
+    pub fn repository(&self, ca_cert: &CaCert) -> (r: StoreRepository) { unimplemented!() }
+    #[verifier::external_body]
+    pub fn pub_point(&self, ca_cert: &CaCert) -> (r: Result<StoredPoint, Failed>) { unimplemented!() }
+}
+// store::Store
+impl Store {
+    #[verifier::external_body]
+    pub fn start(&self) -> (r: StoreRun<'_>) { unimplemented!() }
+    #[verifier::external_body]
+    pub fn status(&self) -> (r: Result<Option<StoredStatus>, Failed>) { unimplemented!() }
+    #[verifier::external_body]
+    pub fn sanitize(&self) -> (r: Result<(), Fatal>) { unimplemented!() }
+    #[verifier::external_body]
+    pub fn dump(&self, dir: &Path) -> (r: Result<(), Failed>) { unimplemented!() }
 }
 
 // collector::Run, likewise.
@@ -41,6 +94,26 @@ impl<'a> CollectorRun<'a> {
     pub fn cleanup(&self, retain: &mut Cleanup) -> (r: Result<(), Failed>)
         requires !self.engine_dirty(),
     { unimplemented!() }
+    // The other operations of collector::Run (none of them removes collector data).
+    #[verifier::external_body]
+    pub fn done(self, metrics: &mut Metrics) { unimplemented!() }
+    #[verifier::external_body]
+    pub fn load_ta(&self, uri: &TalUri) -> (r: Option<Bytes>) { unimplemented!() }
+    #[verifier::external_body]
+    pub fn repository<'s>(&'s self, ca: &'s CaCert) -> (r: Result<Option<CollectorRepository<'s>>, RunFailed>) { unimplemented!() }
+    #[verifier::external_body]
+    pub fn was_updated(&self, ca: &CaCert) -> (r: bool) { unimplemented!() }
+}
+// collector::Collector
+impl Collector {
+    #[verifier::external_body]
+    pub fn start(&self) -> (r: CollectorRun<'_>) { unimplemented!() }
+    #[verifier::external_body]
+    pub fn ignite(&mut self) -> (r: Result<(), Failed>) { unimplemented!() }
+    #[verifier::external_body]
+    pub fn sanitize(&self) -> (r: Result<(), Fatal>) { unimplemented!() }
+    #[verifier::external_body]
+    pub fn dump(&self, dir: &Path) -> (r: Result<(), Failed>) { unimplemented!() }
 }
 
 pub trait ProcessRun: Sized { }
@@ -53,6 +126,31 @@ impl vstd::std_specs::convert::FromSpecImpl<Failed> for RunFailed {
 impl From<Failed> for RunFailed {
     #[verifier::external_body]
     fn from(value: Failed) -> RunFailed { unimplemented!() }
+}
+
+impl vstd::std_specs::convert::FromSpecImpl<Fatal> for RunFailed {
+    open spec fn obeys_from_spec() -> bool { false }
+    open spec fn from_spec(v: Fatal) -> RunFailed { arbitrary() }
+}
+impl From<Fatal> for RunFailed {
+    #[verifier::external_body]
+    fn from(value: Fatal) -> RunFailed { unimplemented!() }
+}
+impl vstd::std_specs::convert::FromSpecImpl<Fatal> for Failed {
+    open spec fn obeys_from_spec() -> bool { true }
+    open spec fn from_spec(v: Fatal) -> Failed { Failed }
+}
+impl From<Fatal> for Failed {
+    #[verifier::external_body]
+    fn from(value: Fatal) -> Failed { unimplemented!() }
+}
+impl vstd::std_specs::convert::FromSpecImpl<Failed> for Fatal {
+    open spec fn obeys_from_spec() -> bool { true }
+    open spec fn from_spec(v: Failed) -> Fatal { Fatal }
+}
+impl From<Failed> for Fatal {
+    #[verifier::external_body]
+    fn from(value: Failed) -> Fatal { unimplemented!() }
 }
 
 impl ValidationReport {
@@ -81,4 +179,75 @@ impl<P: ProcessRun> Run<'_, P> {
 impl<'a, P> Run<'a, P> {
     #[verifier::external_body]
     pub fn done(self) -> (r: Metrics) { unimplemented!() }
+    #[verifier::external_body]
+    fn run_failed(&self, err: RunFailed) { unimplemented!() }
 }
+
+// ---- std functions without a vstd specification (ASSUMED: their std definitions).
+// Declared so that a refactoring that starts using one of them is verified, not rejected.
+pub assume_specification<T: Ord + core::marker::Destruct> [std::cmp::min] (a: T, b: T) -> (r: T)
+    ensures <T as vstd::std_specs::cmp::OrdSpec>::obeys_cmp_spec() ==> r == (if vstd::std_specs::cmp::OrdSpec::cmp_spec(&b, &a) == std::cmp::Ordering::Less { b } else { a }),
+;
+pub assume_specification<T: Ord + core::marker::Destruct> [std::cmp::max] (a: T, b: T) -> (r: T)
+    ensures <T as vstd::std_specs::cmp::OrdSpec>::obeys_cmp_spec() ==> r == (if vstd::std_specs::cmp::OrdSpec::cmp_spec(&b, &a) == std::cmp::Ordering::Less { a } else { b }),
+;
+pub assume_specification [std::cmp::Ordering::is_lt] (o: std::cmp::Ordering) -> (r: bool)
+    ensures r == (o == std::cmp::Ordering::Less);
+pub assume_specification [std::cmp::Ordering::is_gt] (o: std::cmp::Ordering) -> (r: bool)
+    ensures r == (o == std::cmp::Ordering::Greater);
+pub assume_specification [std::cmp::Ordering::is_le] (o: std::cmp::Ordering) -> (r: bool)
+    ensures r == (o != std::cmp::Ordering::Greater);
+pub assume_specification [std::cmp::Ordering::is_ge] (o: std::cmp::Ordering) -> (r: bool)
+    ensures r == (o != std::cmp::Ordering::Less);
+pub assume_specification<T: core::marker::Destruct> [bool::then_some] (b: bool, t: T) -> (r: Option<T>)
+    ensures r == (if b { Some(t) } else { None::<T> });
+pub assume_specification<T: core::marker::Destruct> [std::option::Option::<T>::xor] (a: Option<T>, b: Option<T>) -> (r: Option<T>)
+    ensures r == (match (a, b) { (Some(x), None) => Some(x), (None, Some(y)) => Some(y), _ => None::<T> });
+pub assume_specification<'a, T: Copy> [std::option::Option::<&T>::copied] (o: Option<&'a T>) -> (r: Option<T>)
+    ensures r == (match o { Some(x) => Some(*x), None => None::<T> });
+pub assume_specification<T: core::marker::Destruct> [std::option::Option::<T>::or] (a: Option<T>, b: Option<T>) -> (r: Option<T>)
+    ensures r == (if a is Some { a } else { b });
+pub assume_specification<T: core::marker::Destruct, U: core::marker::Destruct> [std::option::Option::<T>::and] (a: Option<T>, b: Option<U>) -> (r: Option<U>)
+    ensures r == (if a is Some { b } else { None::<U> });
+pub assume_specification<T: core::marker::Destruct, U: core::marker::Destruct> [std::option::Option::<T>::zip] (a: Option<T>, b: Option<U>) -> (r: Option<(T, U)>)
+    ensures r == (match (a, b) { (Some(x), Some(y)) => Some((x, y)), _ => None::<(T, U)> });
+pub assume_specification<T, F: FnOnce(T) -> bool + core::marker::Destruct> [std::option::Option::<T>::is_some_and] (o: Option<T>, f: F) -> (r: bool)
+    requires o matches Some(x) ==> f.requires((x,)),
+    ensures match o { Some(x) => f.ensures((x,), r), None => !r };
+pub assume_specification<T, F: FnOnce(T) -> bool + core::marker::Destruct> [std::option::Option::<T>::is_none_or] (o: Option<T>, f: F) -> (r: bool)
+    requires o matches Some(x) ==> f.requires((x,)),
+    ensures match o { Some(x) => f.ensures((x,), r), None => r };
+pub assume_specification<T: core::marker::Destruct, P: FnOnce(&T) -> bool + core::marker::Destruct> [std::option::Option::<T>::filter] (o: Option<T>, p: P) -> (r: Option<T>)
+    requires o matches Some(x) ==> p.requires((&x,)),
+    ensures match o { Some(x) => (r == Some(x) && p.ensures((&x,), true)) || (r is None && p.ensures((&x,), false)), None => r is None };
+pub assume_specification<T: core::marker::Destruct, F: FnOnce() -> Option<T> + core::marker::Destruct> [std::option::Option::<T>::or_else] (o: Option<T>, f: F) -> (r: Option<T>)
+    requires o is None ==> f.requires(()),
+    ensures match o { Some(x) => r == o, None => f.ensures((), r) };
+pub assume_specification<T, U: core::marker::Destruct, F: FnOnce(T) -> U + core::marker::Destruct> [std::option::Option::<T>::map_or] (o: Option<T>, d: U, f: F) -> (r: U)
+    requires o matches Some(x) ==> f.requires((x,)),
+    ensures match o { Some(x) => f.ensures((x,), r), None => r == d };
+pub assume_specification<T, U, D: FnOnce() -> U + core::marker::Destruct, F: FnOnce(T) -> U + core::marker::Destruct> [std::option::Option::<T>::map_or_else] (o: Option<T>, d: D, f: F) -> (r: U)
+    requires o matches Some(x) ==> f.requires((x,)), o is None ==> d.requires(()),
+    ensures match o { Some(x) => f.ensures((x,), r), None => d.ensures((), r) };
+pub assume_specification<T: core::marker::Destruct, E: core::marker::Destruct> [std::result::Result::<T, E>::unwrap_or] (x: Result<T, E>, d: T) -> (r: T)
+    ensures r == (match x { Ok(v) => v, Err(_) => d });
+pub assume_specification<T, E: core::marker::Destruct, F: core::marker::Destruct> [std::result::Result::<T, E>::or] (a: Result<T, E>, b: Result<T, F>) -> (r: Result<T, F>)
+    ensures match a { Ok(v) => r == Ok::<T, F>(v), Err(_) => r == b };
+pub assume_specification<T, E, U, F: FnOnce(T) -> Result<U, E> + core::marker::Destruct> [std::result::Result::<T, E>::and_then] (x: Result<T, E>, f: F) -> (r: Result<U, E>)
+    requires x matches Ok(v) ==> f.requires((v,)),
+    ensures match x { Ok(v) => f.ensures((v,), r), Err(e) => r == Err::<U, E>(e) };
+pub assume_specification<T, E: core::marker::Destruct, F: FnOnce(T) -> bool + core::marker::Destruct> [std::result::Result::<T, E>::is_ok_and] (x: Result<T, E>, f: F) -> (r: bool)
+    requires x matches Ok(v) ==> f.requires((v,)),
+    ensures match x { Ok(v) => f.ensures((v,), r), Err(_) => !r };
+pub assume_specification<T, E, F: FnOnce(E) -> T + core::marker::Destruct> [std::result::Result::<T, E>::unwrap_or_else] (x: Result<T, E>, f: F) -> (r: T)
+    requires x matches Err(e) ==> f.requires((e,)),
+    ensures match x { Ok(v) => r == v, Err(e) => f.ensures((e,), r) };
+pub assume_specification<T> [std::mem::replace] (dest: &mut T, src: T) -> (r: T)
+    ensures r == *old(dest), *final(dest) == src;
+pub assume_specification<T: Default + core::marker::Destruct, E: core::marker::Destruct> [std::result::Result::<T, E>::unwrap_or_default] (x: Result<T, E>) -> (r: T)
+    ensures x matches Ok(v) ==> r == v;
+pub assume_specification<T, E, U: core::marker::Destruct, F: FnOnce(T) -> U + core::marker::Destruct> [std::result::Result::<T, E>::map_or] (x: Result<T, E>, d: U, f: F) -> (r: U)
+    requires x matches Ok(v) ==> f.requires((v,)),
+    ensures match x { Ok(v) => f.ensures((v,), r), Err(_) => r == d };
+pub assume_specification [<std::cmp::Ordering as PartialEq>::eq] (a: &std::cmp::Ordering, b: &std::cmp::Ordering) -> (r: bool)
+    ensures r == (*a == *b);
